@@ -82,13 +82,16 @@ impl LazyParameters {
                 LHS,
                 RHS,
             ]);
-            *self.data.lock().unwrap() = Some(m);
+            *self.data.lock().unwrap_or_else(|poisoned| poisoned.into_inner()) = Some(m);
             #[cfg(feature = "verif_hooks")]
             crate::verif_hooks::point("parameters.init.end");
         });
         #[cfg(feature = "verif_hooks")]
         crate::verif_hooks::point("parameters.get.before_lock");
-        self.data.lock().unwrap()
+        // A panic in code that runs while the guard is held (for example a tag
+        // summarizer called during formatting) must not disable the registry
+        // for the rest of the process: the data is still valid, so recover it.
+        self.data.lock().unwrap_or_else(|poisoned| poisoned.into_inner())
     }
 }
 
